@@ -117,6 +117,9 @@ OPS = [
     ('seterr', {'obssize': 'ignore'}), ('seterr', {'all': 'warn'}), ('seterr', {'empty': 'raise', 'sampdup': 'print'}),
     ('seterr', {'bogus': 'raise'}), ('seterr', {'obssize': 'explode'}), ('seterr', {'obssize': 'ignore', 'bogus': 'raise'}),
     ('seterr', {'all': 'ignore', 'bogus': 'raise'}), ('seterr', {'all': 'nonsense'}),
+    # a valid entry *before* an unknown reaction (a setter that validates while it applies leaves the first one behind)
+    ('seterr', {'obssize': 'call', 'empty': 'explode'}), ('seterr', {'all': 'ignore', 'empty': 'loud'}),
+    ('enter', {'sampsize': 'print', 'obsdup': 'loud'}),
     ('enter', {'empty': 'raise'}), ('enter', {'all': 'print'}), ('enter', {'bogus': 'ignore'}),
     ('exit', None), ('exit-exc', None),
     ('seterrcall', 'obsdup'), ('seterrcall', 'nokind'),
